@@ -132,7 +132,10 @@ def _env(ctx):
     for pname, ptxt, seq, w in specs:
         lines.append(build_line(ptxt, seq, w) if pname != "adjacent-zids" else ptxt)
     header = "# CUR page\n\n"
-    cur = header + "\n".join(lines) + "\n"
+    # the page the lines are on also holds notes whose three-character ZIDs BEGIN with the
+    # two-character ZIDs the lines refer to (those are owned by other pages)
+    decoys = "\n- 240105#R2A a note of this page\n- 240101#P1A another one\no P1 240502 240105#R2B third\n"
+    cur = header + "\n".join(lines) + "\n" + decoys
     files = dict(BASE)
     files["cur.zo"] = "# unindexed helper, see lines\n"
     zd = Z.make_zdir(BASE, "c17")
